@@ -37,22 +37,22 @@ impl StakeSet {
         self.stakes.contains_key(&coin.txhash) && coin.index == 0
     }
 
-    /// Checks how many votes a particular staker has, in the given epoch.
+    /// Checks how many votes a particular staker has, in the given epoch (saturating at `u128::MAX`).
     pub fn votes(&self, epoch: u64, key: Ed25519PK) -> u128 {
         self.stakes
             .values()
             .filter(|v| v.e_start <= epoch && v.e_post_end > epoch && v.pubkey == key)
             .map(|v| v.syms_staked.0)
-            .sum()
+            .fold(0u128, |a, b| a.saturating_add(b))
     }
 
-    /// Obtains the number of votes in total for the given epoch.
+    /// Obtains the number of votes in total for the given epoch (saturating at `u128::MAX`).
     pub fn total_votes(&self, epoch: u64) -> u128 {
         self.stakes
             .values()
             .filter(|v| v.e_start <= epoch && v.e_post_end > epoch)
             .map(|v| v.syms_staked.0)
-            .sum()
+            .fold(0u128, |a, b| a.saturating_add(b))
     }
 
     /// Removes all the stakes that have expired by this epoch.
